@@ -191,6 +191,25 @@ package store
 //@   requires data_set_lock_not_held_by_the_caller: dsMuxHeld == 0
 //@   modifies nothing
 //@   ensures current: result == s.dataSet
+// A cache reset closes the readers and writers of the data set it replaces. Closing a reader waits for
+// that reader's own lock, which the reader holds while it asks the storer for the last segment
+// (dataSetMux.RLock): closing them while dataSetMux is held exclusively is a lock-order inversion
+// that freezes the storer.
+//@ func dataSet.Close(self) (err)
+//@   trusted abstract: closes the writers and readers of the data set (waits for each reader's own lock)
+//@   modifies heap
+//@ func Storer.resetDataSet
+//@   arith int
+//@   properties C05
+//@   replay store_resetDeadlock
+//@   requires nonnil: s != nil
+//@   requires data_set_lock_not_held_by_the_caller: dsMuxHeld == 0
+//@   modifies heap, dsMuxHeld
+//@   set dsMuxHeld = 1 at call Lock
+//@   set dsMuxHeld = 0 at call Unlock
+//@   assert at call Close: readers_and_writers_are_closed_without_the_data_set_lock: dsMuxHeld == 0
+//@   ensures released: dsMuxHeld == 0
+
 //@ func Storer.findAof
 //@   arith int
 //@   properties C05
